@@ -77,32 +77,33 @@ type Cfg struct {
 
 // Host is one simulated machine.
 type Host struct {
-	id            int
-	replicaID     uint64
-	addr          string
-	disk          *simfs.Disk
-	inc           int
-	up            bool
-	booting       bool
-	nh            *dragonboat.NodeHost
-	drv           *dragonboat.VerifDriver
-	tr            *transport.Transport
-	rawTransport  *simTransport
-	busy          map[string]*coro.Task
-	sm            *SMInst
-	ticks         int64
-	stopped       bool // shard stopped gracefully (NodeHost still up)
-	started       bool // StartReplica was called in this incarnation
-	joined        bool // member of the shard (initial or added)
-	initial       bool // initial member
-	removed       bool
-	selfRemoved   bool
-	crashedBefore bool
-	imported      bool
-	snapDir       string
-	role          int  // current role as far as the harness knows
-	joinRole      int  // role it was first added with: what its config must say
-	addIssued     bool // an add request for it is outstanding or of unknown outcome
+	id                      int
+	replicaID               uint64
+	addr                    string
+	disk                    *simfs.Disk
+	inc                     int
+	up                      bool
+	booting                 bool
+	nh                      *dragonboat.NodeHost
+	drv                     *dragonboat.VerifDriver
+	tr                      *transport.Transport
+	rawTransport            *simTransport
+	busy                    map[string]*coro.Task
+	sm                      *SMInst
+	ticks                   int64
+	stopped                 bool // shard stopped gracefully (NodeHost still up)
+	started                 bool // StartReplica was called in this incarnation
+	joined                  bool // member of the shard (initial or added)
+	initial                 bool // initial member
+	removed                 bool
+	selfRemoved             bool
+	crashedBefore           bool
+	restartedWhileReceiving bool // StartReplica ran while a snapshot chunk task of this host was in flight
+	imported                bool
+	snapDir                 string
+	role                    int  // current role as far as the harness knows
+	joinRole                int  // role it was first added with: what its config must say
+	addIssued               bool // an add request for it is outstanding or of unknown outcome
 }
 
 // Sim is one simulated run.
@@ -673,8 +674,16 @@ func (s *Sim) taskPanicked(t *coro.Task) {
 			}
 		}
 		if starting && h.crashedBefore {
-			for _, pr := range []string{"C04", "C10", "C16"} {
-				s.ctx.Violate(pr, "restart-failed", "replica %d cannot be restarted after a crash: %s @ %s", h.replicaID, short, origin)
+			// C08: "a replica that recovers from ... its own [snapshot] on restart
+			// ... ends in exactly the state ..." and "compaction never removes an
+			// entry that is not covered by a snapshot the replica can durably
+			// recover from": a replica that cannot get through its recovery at all
+			cause := ""
+			if h.restartedWhileReceiving && strings.Contains(short, "file does not exist") {
+				cause = "cause=shard-restarted-while-receiving-snapshot: "
+			}
+			for _, pr := range []string{"C04", "C08", "C10", "C16"} {
+				s.ctx.Violate(pr, "restart-failed", "%sreplica %d cannot be restarted after a crash: %s @ %s", cause, h.replicaID, short, origin)
 			}
 		}
 		s.orc.panics = append(s.orc.panics, short+" @ "+origin)
@@ -702,6 +711,8 @@ func panicProperties(msg, origin string) []string {
 		return []string{"C18"}
 	case has("not committed entry", "not saved entry"):
 		return []string{"C19", "C02"}
+	case has("gap in log entries"):
+		return []string{"C02", "C08"}
 	case has("gap", "hole found", "moving backward", "committed entries being changed", "conflicts with committed entry",
 		"applied index", "applied term", "older than current state", "out of range state", "invalid commitTo", "alignment error"):
 		return []string{"C02"}
